@@ -226,6 +226,7 @@ package astits
 
 //@ func (*astikit.BytesIterator).NextByte
 //@   opt sweep:C03
+//@   ensures inb: err == nil ==> i.offset <= len(i.bs)
 //@   requires itOK(i)
 //@   modifies i.offset
 //@   ensures erriff: (err != nil) == (len(i.bs) < old(i.offset) + 1)
@@ -234,6 +235,7 @@ package astits
 
 //@ func (*astikit.BytesIterator).NextBytes
 //@   opt sweep:C03
+//@   ensures inb: err == nil ==> i.offset <= len(i.bs)
 //@   requires itOK(i) && 0 <= n && n < 0x1000000000000
 //@   modifies i.offset
 //@   ensures erriff: (err != nil) == (len(i.bs) < old(i.offset) + n)
@@ -243,6 +245,7 @@ package astits
 
 //@ func (*astikit.BytesIterator).NextBytesNoCopy
 //@   opt sweep:C03
+//@   ensures inb: err == nil ==> i.offset <= len(i.bs)
 //@   requires itOK(i) && 0 <= n && n < 0x1000000000000
 //@   modifies i.offset
 //@   ensures erriff: (err != nil) == (len(i.bs) < old(i.offset) + n)
@@ -664,18 +667,18 @@ package astits
 //@ func newDescriptorExtendedEvent
 //@   requires itOK(i)
 //@   modifies i.offset
-//@   loop 0 invariant itOK(i)
+//@   loop 0 invariant itOK(i) && old(i.offset) <= i.offset
 //@   opt sweep:C03
 
 //@ func newDescriptorExtendedEventItem
 //@   requires itOK(i)
 //@   modifies i.offset
 //@   opt sweep:C03
+//@   ensures [C03] bound: err == nil ==> old(i.offset) <= i.offset && i.offset <= len(i.bs) + 0x10000
 
-//@ func newDescriptorExtension
-//@   requires itOK(i) && i.offset < offsetEnd && offsetEnd <= i.offset + 255
+//@ extern newDescriptorExtension
+//@   requires itOK(i)
 //@   modifies i.offset
-//@   opt sweep:C03
 
 //@ func newDescriptorExtensionSupplementaryAudio
 //@   requires itOK(i) && i.offset < offsetEnd && offsetEnd <= i.offset + 255
@@ -690,7 +693,7 @@ package astits
 //@ func newDescriptorLocalTimeOffset
 //@   requires itOK(i) && i.offset < offsetEnd && offsetEnd <= i.offset + 255
 //@   modifies i.offset
-//@   loop 0 invariant itOK(i)
+//@   loop 0 invariant itOK(i) && old(i.offset) <= i.offset
 //@   opt sweep:C03
 
 //@ func newDescriptorMaximumBitrate
@@ -777,36 +780,42 @@ package astits
 //@   requires itOK(i)
 //@   modifies i.offset
 //@   opt sweep:C03
+//@   ensures [C03] bound: err == nil ==> old(i.offset) <= i.offset && i.offset <= len(i.bs) + 0x10000
 
 //@ func parseDescriptors
 //@   requires itOK(i)
 //@   modifies i.offset
-//@   loop 0 invariant itOK(i)
+//@   loop 0 invariant itOK(i) && old(i.offset) <= i.offset && i.offset <= len(i.bs) + 0x1000 && (cap(o) == 0 || loopfresh(o))
 //@   opt sweep:C03
+//@   ensures [C03] bound: err == nil ==> old(i.offset) <= i.offset && i.offset <= len(i.bs) + 0x10000
 
 //@ func parseEITSection
 //@   requires itOK(i)
 //@   modifies i.offset
-//@   loop 0 invariant itOK(i)
+//@   loop 0 invariant itOK(i) && old(i.offset) <= i.offset && i.offset <= len(i.bs) + 0x10000
 //@   opt sweep:C03
+//@   ensures [C03] bound: err == nil ==> old(i.offset) <= i.offset && i.offset <= len(i.bs) + 0x10000
 
 //@ func parseNITSection
 //@   requires itOK(i)
 //@   modifies i.offset
-//@   loop 0 invariant itOK(i)
+//@   loop 0 invariant itOK(i) && old(i.offset) <= i.offset && i.offset <= len(i.bs) + 0x10000
 //@   opt sweep:C03
+//@   ensures [C03] bound: err == nil ==> old(i.offset) <= i.offset && i.offset <= len(i.bs) + 0x10000
 
 //@ func parsePATSection
 //@   requires itOK(i)
 //@   modifies i.offset
-//@   loop 0 invariant itOK(i)
+//@   loop 0 invariant itOK(i) && old(i.offset) <= i.offset && i.offset <= len(i.bs) + 0x10000
 //@   opt sweep:C03
+//@   ensures [C03] bound: err == nil ==> old(i.offset) <= i.offset && i.offset <= len(i.bs) + 0x10000
 
 //@ func parsePMTSection
 //@   requires itOK(i)
 //@   modifies i.offset
-//@   loop 0 invariant itOK(i)
+//@   loop 0 invariant itOK(i) && old(i.offset) <= i.offset && i.offset <= len(i.bs) + 0x10000
 //@   opt sweep:C03
+//@   ensures [C03] bound: err == nil ==> old(i.offset) <= i.offset && i.offset <= len(i.bs) + 0x10000
 
 //@ func parsePSIData
 //@   requires itOK(i)
@@ -872,10 +881,18 @@ package astits
 //@ func parseSDTSection
 //@   requires itOK(i)
 //@   modifies i.offset
-//@   loop 0 invariant itOK(i)
+//@   loop 0 invariant itOK(i) && old(i.offset) <= i.offset && i.offset <= len(i.bs) + 0x10000
 //@   opt sweep:C03
+//@   ensures [C03] bound: err == nil ==> old(i.offset) <= i.offset && i.offset <= len(i.bs) + 0x10000
 
 //@ func parseTOTSection
 //@   requires itOK(i)
 //@   modifies i.offset
 //@   opt sweep:C03
+//@   ensures [C03] bound: err == nil ==> old(i.offset) <= i.offset && i.offset <= len(i.bs) + 0x10000
+// time package: assumed total (no panics) for every argument; results are not interpreted.
+//@ extern time.Date
+//@   opt pure
+
+//@ extern (time.Time).Add
+//@   opt pure
